@@ -40,13 +40,36 @@ def classify(run, v):
     if m:
         run.__dict__.setdefault("m1_arns", set()).add(v.get("arn"))
         return m
-    if v["rule"] in ("H-events-after-terminal",) and v.get("arn") in run.__dict__.get("m1_arns", ()):
-        # follow-on: the replies to the requests a deferred delegate sent after its event had been acknowledged
+    if v["rule"] in ("H-events-after-terminal", "H-multiple-terminal-events", "H-terminal-event-disagrees-with-record") and v.get("arn") in run.__dict__.get("m1_arns", ()):
+        # follow-on: the replies to the requests a deferred delegate sent after its event had been acknowledged, and - when that delegate
+        # belongs to a fan-out with nothing to launch, which completes at once - the join it completes and everything after it, up to a
+        # second terminal event
         return "deferred-delegate-after-ack"
     if v["rule"] in ("H-events-after-terminal", "H-multiple-terminal-events", "H-terminal-event-disagrees-with-record") and \
             (getattr(run, "meta", {}) or {}).get("handled_fanout_failure"):
         return "fanout-failure-handled-siblings-live"
+    if v["rule"] in ("H-events-after-terminal", "H-multiple-terminal-events", "H-terminal-event-disagrees-with-record") and several_unhandled_failures(run, v.get("arn")):
+        return "several-unhandled-failures-end-the-execution-twice"
     return None
+
+
+def several_unhandled_failures(run, arn):
+    """C06's listed finding seen from the history: the execution was ended by a failure, and ended AGAIN by another failure (two FAILED
+    notifications), in a machine whose fan-out has several branches/iterations that can fail independently."""
+    terms = [n["body"]["detail"] for n in run.world.notifications if n["body"]["detail"]["executionArn"] == arn and n["body"]["detail"]["status"] != "RUNNING"]
+    if len(terms) < 2 or any(t["status"] != "FAILED" for t in terms[:2]):
+        return False
+
+    def fanouts(node):
+        if isinstance(node, dict):
+            if node.get("Type") == "Map" or (node.get("Type") == "Parallel" and isinstance(node.get("Branches"), list) and len(node["Branches"]) >= 2):
+                yield node
+            for x in node.values():
+                yield from fanouts(x)
+        elif isinstance(node, list):
+            for x in node:
+                yield from fanouts(x)
+    return any(True for m in run.scn["machines"].values() for _ in fanouts(m["asl"]))
 
 
 def entered_exited(h):
@@ -75,6 +98,29 @@ def multiset_leq(a, b):
     return True, b
 
 
+def find_state_def(scn, name):
+    def walk(node):
+        if isinstance(node, dict):
+            sts = node.get("States")
+            if isinstance(sts, dict) and name in sts:
+                return sts[name]
+            for v in node.values():
+                r = walk(v)
+                if r is not None:
+                    return r
+        elif isinstance(node, list):
+            for v in node:
+                r = walk(v)
+                if r is not None:
+                    return r
+        return None
+    for m in scn["machines"].values():
+        r = walk(m["asl"])
+        if r is not None:
+            return r
+    return None
+
+
 def judge_pairing(ctx, run, meta, sched):
     """Every StateExited is preceded by a StateEntered of the same state that it closes (holds whatever the schedule)."""
     for arn, h in run.histories.items():
@@ -88,8 +134,13 @@ def judge_pairing(ctx, run, meta, sched):
                 n = e["stateExitedEventDetails"]["name"]
                 counts[n] -= 1
                 if counts[n] < 0:
+                    # the listed finding's own signature: the fan-out state whose failure was handled is exited a second time when a sibling
+                    # that was never stopped completes the join again (the unmatched exit is that of the Map/Parallel state itself)
+                    st = find_state_def(run.scn, n)
+                    mech = "fanout-failure-handled-siblings-live" if (meta.get("handled_fanout_failure") and isinstance(st, dict) and st.get("Type") in ("Parallel", "Map")
+                                                                     and (st.get("Catch") or st.get("Retry"))) else None
                     ctx.violation("StateExited-without-matching-StateEntered", S.witness_of(run, dict(name=n, arn=arn, schedule_name=sched, meta=meta,
-                                  types=[(x["type"], (x.get("stateEnteredEventDetails") or x.get("stateExitedEventDetails") or {}).get("name")) for x in h][:60])), None)
+                                  types=[(x["type"], (x.get("stateEnteredEventDetails") or x.get("stateExitedEventDetails") or {}).get("name")) for x in h][:60])), mech)
                     break
 
 
